@@ -556,7 +556,7 @@ Fixpoint callers_run (c : config) (a : astate) (m : omap) (i : Z) (tr : list (op
   | [] => None
   | (o, x) :: r =>
       if caller_ok a o && no_overflow m o then
-        match mon_step c a m o x with
+        match mon_step_gen false c a m o x with
         | inl (a', m') => callers_run c a' m' (i + 1) r
         | inr _ => None
         end
